@@ -16,15 +16,15 @@ theorem WF.frame {s s' : State} (h : WF s)
     by rw [h7, h8]; exact d, by rw [h4]; exact e, by rw [h4, h6]; exact f⟩
 
 theorem InvNum.frame {s s' : State} (h : InvNum s)
-    (h1 : s'.max = s.max) (h2 : s'.cur = s.cur) (h3 : s'.phantom = s.phantom)
+    (h1 : s'.max = s.max) (h2 : s'.cur = s.cur)
     (h4 : s'.blocks = s.blocks) (h5 : s'.nextUid = s.nextUid) (h6 : s'.nextConn = s.nextConn)
     (h7 : s'.tasks = s.tasks) (h8 : s'.nextTask = s.nextTask) : InvNum s' := by
   refine ⟨h.toWF.frame h4 h5 h6 h7 h8, ?_, ?_⟩
-  · have := h.acc; unfold usage at *; rw [h2, h3, h4, h7]; exact this
+  · have := h.acc; unfold usage at *; rw [h2, h4, h7]; exact this
   · have := h.cap; unfold discByHolder at *; rw [h1, h2, h7]; exact this
 
 theorem InvNum.fail {s : State} (h : InvNum s) (m : String) : InvNum (s.fail m) :=
-  h.frame rfl rfl rfl rfl rfl rfl rfl rfl
+  h.frame rfl rfl rfl rfl rfl rfl rfl
 
 /-! ### block updates -/
 
@@ -91,7 +91,7 @@ theorem InvNum.modN {s : State} (h : InvNum s) (u : Nat) (f : Block → Block) (
     rw [← hqp]; exact h.cidsFresh b hb q hq
   · have := h.acc
     unfold usage at *
-    show s.cur + s.phantom = sumInt ((modB s.blocks u f).map Block.size) + _
+    show s.cur = sumInt ((modB s.blocks u f).map Block.size) + _
     rw [map_size_modB _ _ _ hf]; exact this
 
 /-- the effect of changing one existing block on the sum of the block sizes -/
@@ -108,7 +108,7 @@ theorem blocks_toEnd_inv {s : State} (h : InvNum s) (u : Nat) :
   · intro b hb; exact h.cids b (mem_toEnd.mp hb)
   · intro b hb; exact h.cidsFresh b (mem_toEnd.mp hb)
   · have := h.acc; unfold usage at *
-    show s.cur + s.phantom = sumInt ((toEnd s.blocks u).map Block.size) + _
+    show s.cur = sumInt ((toEnd s.blocks u).map Block.size) + _
     rw [sum_toEnd]; exact this
 
 theorem blocks_toFront_inv {s : State} (h : InvNum s) (u : Nat) :
@@ -118,7 +118,7 @@ theorem blocks_toFront_inv {s : State} (h : InvNum s) (u : Nat) :
   · intro b hb; exact h.cids b (mem_toFront.mp hb)
   · intro b hb; exact h.cidsFresh b (mem_toFront.mp hb)
   · have := h.acc; unfold usage at *
-    show s.cur + s.phantom = sumInt ((toFront s.blocks u).map Block.size) + _
+    show s.cur = sumInt ((toFront s.blocks u).map Block.size) + _
     rw [sum_toFront]; exact this
 
 /-! ### task updates -/
